@@ -78,6 +78,7 @@ type Conn struct {
 	RxFrames int
 	Tx       bytes.Buffer // concatenated payloads of the 'D' frames sent to the application
 	TxFrames int
+	TxSizes  []int // payload length of every 'D' frame sent, in order
 
 	ttl              []int // outstanding frames: remaining polls
 	Polls            int
@@ -585,6 +586,7 @@ func (s *Sim) sendDataLocked(remote string, payload []byte) {
 	f := Frame{Kind: 'D', Port: c.Port, PID: 0xF0, From: c.Remote, To: c.Local, Data: payload}
 	c.Tx.Write(payload)
 	c.TxFrames++
+	c.TxSizes = append(c.TxSizes, len(payload))
 	s.logEvent("tx", f, "")
 	s.counters["tx_D"]++
 	s.enqueue(f.Encode())
@@ -692,6 +694,7 @@ func (s *Sim) Report() Report {
 		cp.Rx = *bytes.NewBuffer(append([]byte(nil), c.Rx.Bytes()...))
 		cp.Tx = *bytes.NewBuffer(append([]byte(nil), c.Tx.Bytes()...))
 		cp.ttl = nil
+		cp.TxSizes = append([]int(nil), c.TxSizes...)
 		r.Conns[c.Remote] = &cp
 	}
 	for k, v := range s.counters {
@@ -704,6 +707,13 @@ func (s *Sim) Report() Report {
 		r.Unreg[k] = true
 	}
 	return r
+}
+
+// LinkEnded reports whether the application's side of the link has ended (EOF or error on read).
+func (s *Sim) LinkEnded() bool {
+	s.mu.Lock()
+	defer s.mu.Unlock()
+	return s.rxEOF
 }
 
 // Progress is a number that grows whenever the simulator receives or writes a frame.
